@@ -145,7 +145,7 @@ theorem postParams_ok (d : Params) (h1 : ¬ (d.has .optional = true ∧ d.has .r
   by_cases ho : (Params.get d .optional).isSome = true <;> by_cases hn : (Params.get d .noindels).isSome = true
   all_goals
     simp only [ho, hn, if_true, if_false, Params.get_append, Params.get_erase, Params.get_singleton, postGet, e1]
-  all_goals (cases k <;> simp_all)
+  all_goals (cases k <;> simp_all [Params.get_append, Params.get_erase, Params.get_singleton])
 
 theorem postParams_err (d : Params) (h : (d.has .optional = true ∧ d.has .required = true) ∨ (d.has .indels = true ∧ d.has .noindels = true)) :
     ∃ e, postParams d = .error e ∧ e.isCmdline = true := by
